@@ -1366,7 +1366,7 @@ func (x *c10Run) wires0() string {
 
 // ---------------------------------------------------------------------------- classification
 
-var c10Bits = []string{"c10-cookie-dup", "c10-form-dup", "c10-afterresponse-overwrites-err", "c10-nil-resp-retry", "c10-filereader-not-rewound"}
+var c10Bits = []string{"c10-cookie-dup", "c10-form-dup", "c10-afterresponse-overwrites-err", "c10-nil-resp-retry", "c10-filereader-not-rewound", "c10-unreplayable-retried-in-flight"}
 
 type c10Rec struct {
 	tc       *c10Case
@@ -1401,6 +1401,18 @@ func (tc *c10Case) relevantBits() []int {
 			break
 		}
 	}
+	// retries switched on in flight + a body Do would have refused
+	if tc.dynamic() {
+		unrep := tc.body[0] == 'r'
+		for _, f := range tc.files {
+			unrep = unrep || f.kind == "r" || f.kind == "o"
+		}
+		if unrep {
+			// first: for a non-rewindable upload the pre-C10-6 code (bit 4, fixed in /repo) would
+			// show the same symptom, and the smallest explanation found first names the class
+			r = append([]int{5}, r...)
+		}
+	}
 	return r
 }
 
@@ -1411,7 +1423,7 @@ func (tc *c10Case) relevantBits() []int {
 func c10Finish(s *verifh.Session, recs []c10Rec) {
 	lines := make([]string, len(recs))
 	for i, r := range recs {
-		lines[i] = r.tc.line("c10run", "11111", r.obs)
+		lines[i] = r.tc.line("c10run", "111111", r.obs)
 	}
 	class := make([]string, len(recs))
 	var ans []string
@@ -1431,7 +1443,7 @@ func c10Finish(s *verifh.Session, recs []c10Rec) {
 					continue
 				}
 				for sub := 1; sub < 1<<len(r.relevant); sub++ {
-					m := []byte("11111")
+					m := []byte("111111")
 					off := 0
 					for j, b := range r.relevant {
 						if sub&(1<<j) != 0 {
@@ -1941,7 +1953,12 @@ func c10RandPolicy(r interface{ Intn(int) int }, tc *c10Case) {
 // c10RandDynamic makes some random cases dynamic: a stub edits the retry option or cancels the
 // context in flight, the interval function cancels, the Request is sent again.
 func c10RandDynamic(r interface{ Intn(int) int }, tc *c10Case) {
-	if r.Intn(4) == 0 {
+	c10RandEdits(r, tc, 4)
+	c10RandResend(r, tc)
+}
+
+func c10RandEdits(r interface{ Intn(int) int }, tc *c10Case, oneIn int) {
+	if r.Intn(oneIn) == 0 {
 		edits := []string{"c0", "c1", "c2", "c3", "c-1", "c1@2", "c0@1", "c2@3", "c5@1", "x@2", "x@1", "x", "ix4", "if7@1", "ib50:9000@2"}
 		e := edits[r.Intn(len(edits))]
 		switch r.Intn(4) {
@@ -1962,6 +1979,9 @@ func c10RandDynamic(r interface{ Intn(int) int }, tc *c10Case) {
 			tc.ivx = 1 + r.Intn(3)
 		}
 	}
+}
+
+func c10RandResend(r interface{ Intn(int) int }, tc *c10Case) {
 	if r.Intn(8) == 0 {
 		for i := 0; i <= r.Intn(2); i++ {
 			var ops []string
@@ -2260,6 +2280,27 @@ func TestVerif_C10_wire(t *testing.T) {
 	for _, w := range c10Witnesses() {
 		add(w, "witness")
 	}
+	// retries switched ON while the call is in flight (a response middleware calls SetRetryCount
+	// on resp.Request) for a request whose body cannot be replayed: Do could not refuse it up
+	// front — there was nothing to retry then
+	for _, body := range []string{"rdata-from-a-reader", "file:r", "file:o", "bbytes"} {
+		for _, n0 := range []string{"", "n=0"} {
+			for _, e := range []string{"c2", "c-1", "c1@0"} {
+				tc := &c10Case{allowGet: true, method: "POST", url: "http://c10.test/up", body: "n", after: []string{"F~" + e},
+					script: []string{"t", "t", "s200", "c"}}
+				if n0 != "" {
+					tc.reqOps = []string{n0, "i=x0"}
+				}
+				if strings.HasPrefix(body, "file:") {
+					tc.multipart = true
+					tc.files = []c10File{{param: "p0", name: "f0.txt", kind: body[5:], content: c10Text("upload-content")}}
+				} else {
+					tc.body = body
+				}
+				add(tc, "enabled-in-flight")
+			}
+		}
+	}
 	n := verifh.N(3000, 150000)
 	for i := 0; i < n; i++ {
 		tc := &c10Case{}
@@ -2333,6 +2374,11 @@ func TestVerif_C10_wire(t *testing.T) {
 		}
 		if r.Intn(10) == 0 {
 			tc.after = []string{"F"}
+		}
+		// the retry option edited / the context cancelled in flight, on real request shapes
+		c10RandEdits(r, tc, 8)
+		if tc.dynamic() {
+			count("dynamic")
 		}
 		add(tc, mode)
 	}
